@@ -70,9 +70,10 @@ func doAclCheck(method string, path string, token *jwt.Token, core *security.Ser
 	}
 
 	// get the method
-	action := "read"
-	if method == "DELETE" || method == "POST" {
-		action = "write"
+	// every method that can change state needs write
+	action := "write"
+	if method == http.MethodGet || method == http.MethodHead || method == http.MethodOptions {
+		action = "read"
 	}
 
 	// an explicit deny entry is never overridden by an allow entry
